@@ -176,20 +176,31 @@ end
 /-- `x in list` with Python `==` -/
 def memB (x : M) (l : List M) : Bool := l.any (beq x)
 
+/-- `tuple(sum(c) for c in zip(*xs))`: `zip` stops at the shortest tuple, and of no tuples is empty -/
+def zipSum : List (List Nat) → List Nat
+  | [] => []
+  | [x] => x
+  | x :: rest => List.zipWith (· + ·) x (zipSum rest)
+
 mutual
-/-- `complexity` -/
-def complexity : M → Nat × Nat
-  | .eqU _ vs => (vs.length, 1)
-  | .neM _ vs => (vs.length, 1)
-  | .multi ms => complexityList ms
-  | .union ms => complexityList ms
-  | _ => (1, 1)
-def complexityList : List M → Nat × Nat
-  | [] => (0, 0)
-  | m :: ms => ((complexity m).1 + (complexityList ms).1, (complexity m).2 + (complexityList ms).2)
+/-- `complexity` (a tuple; `()` for a compound without children or containing one) -/
+def complexity : M → List Nat
+  | .eqU _ vs => [vs.length, 1]
+  | .neM _ vs => [vs.length, 1]
+  | .multi ms => zipSum (complexityList ms)
+  | .union ms => zipSum (complexityList ms)
+  | _ => [1, 1]
+def complexityList : List M → List (List Nat)
+  | [] => []
+  | m :: ms => complexity m :: complexityList ms
 end
 
-def cLess (a b : Nat × Nat) : Bool := a.1 < b.1 || (a.1 == b.1 && a.2 < b.2)
+/-- Python's `<` on tuples of ints -/
+def cLess : List Nat → List Nat → Bool
+  | [], [] => false
+  | [], _ :: _ => true
+  | _ :: _, [] => false
+  | a :: as, b :: bs => a < b || (a == b && cLess as bs)
 
 /-- `OrderedSet(iterable)`: first occurrences -/
 def dedupS : List String → List String
